@@ -214,6 +214,9 @@ func renameAfterOK(a ssa.CallInstruction, rn ssa.CallInstruction) bool {
 	if len(errs) == 0 || !precedes(a, rn) {
 		return false
 	}
+	if fnOf := a.Parent(); fnOf != nil && succeededOnEveryPathTo(fnOf, a, rn) {
+		return true
+	}
 	for _, e := range errs {
 		// find phis (transitively) that merge e
 		merged := map[ssa.Value]bool{e: true}
@@ -377,14 +380,29 @@ func checkC06(c *Ctx, r *Report) {
 	}
 	r2 := r.Rule("R2", "E-ORDER/ok", "disk.SetMetadata renames the temporary file into place only in the success region of the write to it", 1)
 	if sm := r.MustFunc(r2, "(*"+tStore+").SetMetadata"); sm != nil {
-		ok := false
-		for _, rn := range callsInNamed(sm, "os.Rename") {
-			for _, w := range callsInNamed(sm, "(*os.File).Write") {
-				if inSuccessRegion(w.Instr, rn.Instr) {
-					ok = true
+		// in SetMetadata itself or in a helper of the package it delegates to
+		cands := []*ssa.Function{sm}
+		for _, cs := range callsIn(sm) {
+			if sf := cs.Instr.Common().StaticCallee(); sf != nil && sf.Pkg == sm.Pkg && len(callsInNamed(sf, "os.Rename")) > 0 {
+				cands = append(cands, sf)
+			}
+		}
+		ok, nrn := true, 0
+		for _, f := range cands {
+			for _, rn := range callsInNamed(f, "os.Rename") {
+				nrn++
+				after := false
+				for _, w := range callsInNamed(f, "(*os.File).Write") {
+					if inSuccessRegion(w.Instr, rn.Instr) {
+						after = true
+					}
+				}
+				if !after {
+					ok = false
 				}
 			}
 		}
+		ok = ok && nrn > 0
 		r.Check(ok, r2, sm, "write then rename", nil, "rename after successful write", "metadata is renamed into place although the write to the temporary file did not succeed")
 	}
 	importRules(c, r, "C07", func(c *Ctx, r *Report) { checkLRUStore(c, r, pkg, true) }, map[string]string{"R6": "R3", "R2": "R4"})
